@@ -12,6 +12,7 @@ claimed={
  "C08":("proof","ComputeInputHashInsertion/Deletion under contract: the hashed byte string is proved equal, byte for byte and in length, to the fixed-width big-endian packing of the property for all in-range values and all batch sizes (loop invariant over the commitments); failures are replayed on the real code against an independent packing + x/crypto Keccak. The defect found (unpadded roots) was repaired by a fix: commit.","§7 C08","assumed contracts of math/big (Bytes, SetBytes), bytes.Buffer, encoding/binary.Write, iden3 keccak256.Hash = Keccak-256 (assumed/stdlib.ctr); spec axioms minLen_def, keccakb_ext; gen-test-params wiring in main.go not under contract yet"),
  "C10":("proof","Proof.MarshalJSON / UnmarshalJSON, toHex, fromHex under contract: the document lists hex(be(raw[32i..32i+32))) in EVM order ar0,ar1,bs00,bs01,bs10,bs11,krs0,krs1 and the decoder hands ReadFrom exactly the 32-byte big-endian form of every coordinate (so decode(encode(p)) has p's raw bytes); failures are replayed on the real code with synthetic proofs. The defect found (left-aligned short coordinates) was repaired by a fix: commit.","§7 C10","assumed contracts: gnark Proof.WriteRawTo/ReadFrom raw layout and inverse, math/big Text/SetString/Bytes/FillBytes, encoding/json on the mirror struct (assumed/stdlib.ctr); spec axioms hex_roundtrip, json_proof_roundtrip"),
  "C16":("proof","toHex, fromHex and the four parameter Marshal/UnmarshalJSON methods under contract with loop invariants over commitments and ragged proofs: every field and element of the document is hex(value) and every decoded field is num(string), lengths preserved (empty arrays included), any non-number makes decoding return an error; with the assumed hex round-trip axiom this gives decode(encode(p)) = p.","§7 C16","assumed contracts of encoding/json on the string-typed mirror structs (accessor view, uint32 range rejection), math/big Text/SetString (assumed/stdlib.ctr); spec axiom hex_roundtrip"),
+ "C07":("proof","ValidateShape (exact iff), ProveInsertion/Deletion (shape check before any indexing — all index expressions have bounds obligations; witness assembled field-for-field and element-for-element from the parameters, ghost-asserted at the definition of `assignment`; error paths return no proof; the proof returned is groth16.Prove(ps.ConstraintSystem, ps.ProvingKey, witness)), VerifyInsertion/Deletion (public witness built from the hash argument; result is exactly groth16.Verify's), Setup*/BuildR1CS* (dimensions stored in order, keys from Setup of the circuit compiled for exactly (depth,batch), circuit handed to frontend.Compile satisfies Define's shape precondition). The crypto half of the property is assumed.","§7 C07","ASSUMED, not decided: Groth16 completeness/soundness/key separation of gnark v0.8.0, frontend.NewWitness field mapping and reduction mod r, frontend.Compile (assumed/gnark_backend.ctr); circuits accept exactly valid batches = C01-C03"),
  "C06":("proof","ReducedModRCheck, ToReducedBigEndian, FromBinaryBigEndian proved for a symbolic field modulus and symbolic byte-aligned width: acceptance iff canonical representative, big-endian layout, recomposition value.","§7 C06",API),
 }
 reasons={}
